@@ -66,7 +66,8 @@ NormRet(e) == [kind |-> e.kind, reenc |-> e.reenc, excUnit |-> e.excUnit, excFc 
 J_return(e) ==
     LET u == Universal(Fr, ReqRec, R, D, e)
         d == Demand(cfg.fault, Fr, ReqRec, R, D, e, touched)
-    IN IF u # "ok" THEN Known(u, e)
+    IN IF e.keptNow # e.keptThen THEN "response-returned-by-an-earlier-call-changed-when-the-client-was-used-again"
+       ELSE IF u # "ok" THEN Known(u, e)
        ELSE IF d # "ok" THEN Known(d, e)
        ELSE IF e.ms > cfg.timeoutMs + 1500 THEN "call-took-much-longer-than-the-configured-timeout"
        ELSE IF cfg.hooks = 1 /\ pend # None THEN "read-not-reported-to-after-read-hook"
@@ -99,6 +100,12 @@ Judge(e) ==
             IF cfg.hooks = 0 THEN "harness-hook-event-without-hooks"
             ELSE IF e.bytes # D THEN "before-parse-hook-bytes-differ-from-concatenated-reads"
             ELSE IF pend # None THEN "read-not-reported-to-after-read-hook"
+            ELSE "ok"
+      [] e.ev = "parse" ->
+            \* (observable only with the configurable client) the reply handed to the parser is what was read, and the
+            \* before-parse hook has seen exactly these bytes first
+            IF e.bytes # D THEN "bytes-handed-to-the-parser-differ-from-the-bytes-read"
+            ELSE IF cfg.hooks = 1 /\ ~bpSeen THEN "reply-handed-to-the-parser-without-before-parse-hook"
             ELSE "ok"
       [] e.ev = "return" -> J_return(e)
       [] OTHER -> "unknown-event"
